@@ -17,7 +17,8 @@ Init == /\ ct \in Range(CTypes) /\ depth \in 0..MaxDepth /\ name \in DOMAIN Name
         /\ audio \in {"none", "str", "path", "fspath"} /\ ph = "in"
         \* outside_prefix: a sibling directory whose NAME starts with the audio directory's name (string prefix, not path prefix)
         \* outside_case: a sibling directory whose name differs from the audio directory's only by letter case
-        /\ place \in {"inside", "outside", "outside_prefix", "outside_case"}
+        \* outside_cwd: the audio directory is the current directory, given as ".", and the recordings are ABSOLUTE paths elsewhere
+        /\ place \in {"inside", "outside", "outside_prefix", "outside_case", "outside_cwd"} /\ (place = "outside_cwd" => akind = "rel")
         \* the directories given as absolute or relative paths; rel_first: the load directory B is relative and equal to the
         \* first component of the stored relative path (so B.x starts with the same component twice)
         /\ akind \in {"abs", "rel"} /\ bkind \in {"abs", "rel", "rel_first", "root"}        \* root: the load directory is the file-system root "/"
@@ -30,7 +31,7 @@ Init == /\ ct \in Range(CTypes) /\ depth \in 0..MaxDepth /\ name \in DOMAIN Name
         /\ call \in {"default", "format_aoef", "format_none", "typed"}
         /\ LET ix(S, x) == CHOOSE i \in 1..Len(S) : S[i] = x
                n == name + 3 * depth + 5 * ix(<<"none", "str", "path", "fspath">>, audio) + 7 * ix(<<"default", "format_aoef", "format_none", "typed">>, call)
-                    + 11 * ix(<<"inside", "outside", "outside_prefix", "outside_case">>, place) + 13 * ix(<<"abs", "rel", "rel_first", "root">>, bkind) + ix(CTypes, ct)
+                    + 11 * ix(<<"inside", "outside", "outside_prefix", "outside_case", "outside_cwd">>, place) + 13 * ix(<<"abs", "rel", "rel_first", "root">>, bkind) + ix(CTypes, ct)
            IN  n % Stride = 0
         \* dots: which special directory lies below the audio directory: "dotdot" = a ".." component, "dotdir" = a first component
         \* that begins with a dot (.cache), "tilde" = a first component that begins with a tilde (~user) -- all legal, all stored
